@@ -138,7 +138,8 @@ def conv_transpose(c):
   x, k = arr(c['x']), arr(c['kernel'])
   b = arr(c['bias']) if c['use_bias'] else None
   nd = len(c['kernel_size'])
-  kw = dict(kernel_size=tuple(c['kernel_size']), strides=tuple(c['strides']), padding=pad_arg(c['padding']), use_bias=c['use_bias'], transpose_kernel=c['transpose_kernel'], param_dtype=F64)
+  kw = dict(kernel_size=tuple(c['kernel_size']), strides=tuple(c['strides']), padding=pad_arg(c['padding']), use_bias=c['use_bias'], transpose_kernel=c['transpose_kernel'], param_dtype=F64,
+            kernel_dilation=tuple(c.get('kernel_dilation') or [1] * len(c['kernel_size'])))
   params = {'kernel': k, **({'bias': b} if b is not None else {})}
   feats = k.shape[-2] if c['transpose_kernel'] else k.shape[-1]
   res = {}
@@ -152,7 +153,7 @@ def conv_transpose(c):
     return out(m(x))
   res['nnx'] = safe(nx)
   res['ref'] = safe(lambda: out(R.conv_transpose(np.array(c['x'], float), np.array(c['kernel'], float), None if b is None else np.array(c['bias'], float), c['strides'], c['padding'],
-                                                  c['transpose_kernel'], nd)))
+                                                  c['transpose_kernel'], nd, c.get('kernel_dilation'))))
   return res
 
 
